@@ -6,6 +6,11 @@ format_date(date, "%Y-%m-%d %a %u %w %j %y %e %b %A %B"); the extracted Coq mode
 (Model/Dates.v: parse_date, format_date) gets the same strings with the same current date and
 --input-date-format list.  Compared per date string: accepted or the error class
 (Invalid date / year out of range / day not valid for month), and the whole formatted text.
+Several formats in one run are part of the input space: report formats with 2-4 different
+format_date(date, FMT) / format_datetime(date, FMT) calls in random byte order, combined with
+--date-format / --datetime-format / --input-date-format and with --dow, -M, --by-payee (which print
+dates themselves through the same formatter cache); the oracle reads every field back in the
+format it was requested in (in the model a formatter is a function of the format string alone).
 Oracle: python's datetime (proleptic Gregorian) evaluates the property text on ledger's output:
 an intended valid date must be accepted, print as that very day with the calendar's weekday and
 day of the year; an impossible date or a date with trailing characters must be rejected; order
@@ -18,7 +23,7 @@ META = dict(
     id='C14',
     level='proof',
     technique='Coq proof (date reader/formatter model against the Gregorian calendar: round trips, soundness of acceptance, weekday, order) + differential correspondence of the extracted model against ledger, exhaustive over 1900..2199 in every accepted spelling',
-    level_text='Theorems in coq/Properties/Properties_C14.v state, for all dates of boost\'s range 1400..9999 and all strings, that the model of parse_date (reader list regenerated from times.cc, separator rewriting, glibc strptime for %Y %m %d %y, boost date construction, re-format-and-compare, year inference) accepts every accepted spelling of a valid date as exactly that day, accepts nothing that does not spell a valid date (month 13, day 32, 30 February, 29 February of a non-leap year, trailing characters are errors), that formatting a read date gives the same day, that weekday and order are those of the Gregorian calendar, and that day number <-> civil date conversions are inverse bijections. The model is tied to the code by reading every day 1900-01-01..2199-12-31 in six spellings, every impossible month/day for leap, non-leap and century years, MM/DD under year directives and --now, range ends, malformed strings and random --input-date-format/--date-format pairs both in freshly built ledger and in the extracted model.',
+    level_text='Theorems in coq/Properties/Properties_C14.v state, for all dates of boost\'s range 1400..9999 and all strings, that the model of parse_date (reader list regenerated from times.cc, separator rewriting, glibc strptime for %Y %m %d %y, boost date construction, re-format-and-compare, year inference) accepts every accepted spelling of a valid date as exactly that day, accepts nothing that does not spell a valid date (month 13, day 32, 30 February, 29 February of a non-leap year, trailing characters are errors), that formatting a read date gives the same day, that weekday and order are those of the Gregorian calendar, and that day number <-> civil date conversions are inverse bijections. The model is tied to the code by reading every day 1900-01-01..2199-12-31 in six spellings, every impossible month/day for leap, non-leap and century years, MM/DD under year directives and --now, range ends, malformed strings, random --input-date-format/--date-format pairs, and reports that ask for several different date formats in one run (2-7 per run, with --dow / -M / --by-payee) both in freshly built ledger and in the extracted model; the translator re-reads from times.cc that the formatter cache is keyed by the exact format string.',
     level_note='Trusted: Coq kernel; extraction + OCaml driver and the python harness for the correspondence; glibc strptime/strftime modelled for the numeric directives (%Y %m %d %e %y %j %u %w, names %a %A %b %B in the C locale) and validated differentially; boost::gregorian date construction, day numbers and month arithmetic transcribed in Base/Calendar.v and proved equal to the era-based calendar. A year-less MM/DD later in the year than today is taken from the previous year (same month and day; 29 February then has no counterpart and is an error).',
     design_ref='DESIGN.md section 7 C14, section 6.5',
     assumptions=['TZ=UTC, LC_ALL=C (weekday and month names)',
@@ -579,6 +584,242 @@ def g_custom(ctx, rng, npairs, per):
     return groups
 
 
+# ------------------------------------------------------------------------------------------ several formats in one run
+FMT_POOL = ['%m/%d/%Y', '%d/%m/%Y', '%Y-%m-%d', '%A', '%d %B %Y', '%y%m%d', '%a %e %b', '%j', '%Y/%m/%d', '%As',
+            '%A %d %B %Y', '%B', '%d.%m.%y', '%Y%m%d', '%u %w', '%b-%d', '%e/%m', '%Y', '%m', '%d', '%a, %d %b %Y', '%Y.%j']
+DT_TAILS = ['', '', ' %H:%M:%S', 'T%H:%M', ' %H', '_%S%M']
+ABBR_M = [x[:3] for x in MONTHS]
+RB = {'Y': r'(\d{4})', 'm': r'(\d\d)', 'd': r'(\d\d)', 'y': r'(\d\d)', 'e': r'([ \d]\d)', 'j': r'(\d{3})', 'u': r'([1-7])',
+      'w': r'([0-6])', 'a': '(' + '|'.join(WD) + ')', 'A': '(' + '|'.join(WDFULL) + ')', 'b': '(' + '|'.join(ABBR_M) + ')',
+      'h': '(' + '|'.join(ABBR_M) + ')', 'B': '(' + '|'.join(MONTHS) + ')', 'H': r'(\d\d)', 'M': r'(\d\d)', 'S': r'(\d\d)'}
+
+
+def rand_fmt(rng):
+    if rng.random() < 0.6:
+        return rng.choice(FMT_POOL)
+    f = ''
+    for k in range(rng.randrange(1, 5)):
+        f += rng.choice(OUT_DIRS) + rng.choice(['-', '/', '.', ' ', ':', '', ',', '_'])
+    f = f.strip()
+    return f if f and not f.endswith(('/', ' ')) else f + 'E'
+
+
+def read_back(fmt, text, want):
+    """Oracle: read `text` in the format it was REQUESTED in (`fmt`) and compare every field with
+    the day `want`; -> None | symptom"""
+    pat, dirs = '', []
+    i = 0
+    while i < len(fmt):
+        if fmt[i] == '%' and i + 1 < len(fmt) and fmt[i + 1] in RB:
+            pat += RB[fmt[i + 1]]
+            dirs.append(fmt[i + 1])
+            i += 2
+        else:
+            pat += re.escape(fmt[i])
+            i += 1
+    m = re.fullmatch(pat, text)
+    if not m:
+        return 'not-in-requested-format'
+    y, mo, d = want
+    dt = datetime.date(y, mo, d)
+    wd = dt.weekday()
+    for c, v in zip(dirs, m.groups()):
+        ok = {'Y': lambda: int(v) == y, 'm': lambda: int(v) == mo, 'd': lambda: int(v) == d, 'y': lambda: int(v) == y % 100,
+              'e': lambda: int(v) == d, 'j': lambda: int(v) == dt.timetuple().tm_yday, 'u': lambda: int(v) == wd + 1,
+              'w': lambda: int(v) == (wd + 1) % 7, 'a': lambda: v == WD[wd], 'A': lambda: v == WDFULL[wd],
+              'b': lambda: v == ABBR_M[mo - 1], 'h': lambda: v == ABBR_M[mo - 1], 'B': lambda: v == MONTHS[mo - 1],
+              'H': lambda: int(v) == 0, 'M': lambda: int(v) == 0, 'S': lambda: int(v) == 0}[c]()
+        if not ok:
+            return 'other-day'
+    return None
+
+
+def midnight(fmt):
+    """format_datetime of a date: the time of day is 00:00:00 (the model formats dates only)"""
+    return fmt.replace('%H', '00').replace('%M', '00').replace('%S', '00')
+
+
+def month_end(y, m):
+    return (y, m, dim(y, m))
+
+
+def multi_run(ctx, rng, idx):
+    """one ledger run whose report format asks for 2-4 different date formats (in random byte order),
+    possibly with --date-format / --datetime-format / --input-date-format and with an option that
+    prints dates itself (--dow, -M, --by-payee).  -> dict(args, journal, rows=[[(fmt, modelfmt, date, literal_prefix)]...], mode)"""
+    mode = rng.choice(['plain', 'plain', 'plain', 'dow', 'monthly', 'bypayee'])
+    k = rng.randrange(2, 5)
+    fmts = []
+    while len(fmts) < k:
+        f = rand_fmt(rng)
+        if f not in fmts:
+            fmts.append(f)
+    r = rng.random()
+    if r < 0.35:
+        fmts.sort(reverse=True)          # each later format sorts before the cached ones
+    elif r < 0.5:
+        fmts.sort()
+    df = rand_fmt(rng) if rng.random() < 0.5 or mode == 'monthly' and rng.random() < 0.7 else None
+    dtf = (rand_fmt(rng) + rng.choice(DT_TAILS)) if rng.random() < 0.3 else None
+    inf = None
+    if mode == 'plain' and rng.random() < 0.4:
+        inf = rng.choice(['%d.%m.%Y', '%Y%m%d', '%m/%d/%Y', '%Y_%m_%d', '%d-%m-%Y'])
+    # transactions
+    n = rng.randrange(8, 30)
+    base = datetime.date(rng.choice([rng.randrange(1401, 9999), rng.randrange(1950, 2100)]), rng.randrange(1, 13), 1).toordinal()
+    payees = ['alpha', 'beta', 'Gamma', 'pa', 'zz top', '0 shop']
+    dates, txs = [], []
+    for i in range(n):
+        dt = datetime.date.fromordinal(base + rng.randrange(0, 120))
+        dates.append((dt.year, dt.month, dt.day))
+    if mode == 'monthly':
+        dates.sort()
+    lines = []
+    names = []
+    for i, (y, m, d) in enumerate(dates):
+        name = rng.choice(payees) if mode == 'bypayee' else 'p%d' % i
+        names.append(name)
+        ds = expand_in(inf, y, m, d) if inf else spell(y, m, d, rng.choice(SEPS), None, rng.random() < 0.7 or m >= 10, rng.random() < 0.7 or d >= 10)
+        lines += ['%s %s' % (ds, name), '    A  1', '    B']
+        txs.append(ds)
+    # fields
+    specs = []       # (expression text, requested format, kind)
+    for f in fmts:
+        kind = rng.choice(['fd', 'fd', 'fdx', 'fdt']) if mode == 'plain' else rng.choice(['fd', 'fd', 'fdt'])
+        if kind == 'fdt':
+            f2 = f + rng.choice(DT_TAILS)
+            specs.append(('format_datetime(date, "%s")' % f2, f2, 'date'))
+        elif kind == 'fdx':
+            specs.append(('format_date(xact.date, "%s")' % f, f, 'date'))
+        else:
+            specs.append(('format_date(date, "%s")' % f, f, 'date'))
+    if df is not None:
+        specs.insert(rng.randrange(len(specs) + 1), ('date', df, 'date'))
+        if rng.random() < 0.5:
+            specs.insert(rng.randrange(len(specs) + 1), ('format_date(date)', df, 'date'))
+    if dtf is not None:
+        specs.insert(rng.randrange(len(specs) + 1), ('format_datetime(date)', dtf, 'date'))
+    specs.insert(rng.randrange(len(specs) + 1), ('payee', None, 'payee'))
+    fmt = '|'.join('%(' + e + ')' for e, _, _ in specs) + '\\n'
+    args = ['reg', 'A', '--now', '%d/%d/%d' % NOW]
+    if df is not None:
+        args += ['--date-format', df]
+    if dtf is not None:
+        args += ['--datetime-format', dtf]
+    if inf:
+        args += ['--input-date-format', inf]
+    args += {'plain': [], 'dow': ['--dow'], 'monthly': ['-M'], 'bypayee': ['--by-payee']}[mode]
+    args += ['--format', fmt]
+    # rows the report must show: (date of the row, payee text as (format, date) or literal)
+    rows = []
+    if mode == 'plain':
+        for i, dte in enumerate(dates):
+            rows.append((dte, ('lit', 'p%d' % i)))
+    elif mode == 'dow':
+        for w in range(7):          # Sunday first
+            grp = [x for x in dates if (datetime.date(*x).weekday() + 1) % 7 == w]
+            if grp:
+                rows.append((min(grp), ('fmt', '', '%As', max(grp))))
+    elif mode == 'monthly':
+        for ym in sorted(set((y, m) for y, m, d in dates)):
+            rows.append(((ym[0], ym[1], 1), ('fmt', '- ', df if df is not None else '%y-%b-%d', month_end(*ym))))
+    else:
+        for nm in sorted(set(names), key=lambda x: x.encode()):
+            grp = [dates[i] for i in range(n) if names[i] == nm]
+            rows.append((min(grp), ('lit', nm)))
+    return dict(mode=mode, args=args, journal='\n'.join(lines) + '\n', specs=specs, rows=rows, inf=inf, idx=idx)
+
+
+def g_multi(ctx, rng, res, nruns):
+    runs = [multi_run(ctx, rng, i) for i in range(nruns)]
+
+    def impl_of(r):
+        path = ctx.path('multi%d.dat' % r['idx'])
+        with open(path, 'w', encoding='latin-1') as f:
+            f.write(r['journal'])
+        st, out, err = lib.run_ledger(['-f', path] + r['args'], timeout=120)
+        return st, out.decode('latin-1'), err.decode('latin-1')
+    with ThreadPoolExecutor(max_workers=min(8, lib.NCPU)) as ex:
+        outs = list(ex.map(impl_of, runs))
+    # model: every field of every expected row is format_date(requested format) of the row's date
+    lines = []
+    for r in runs:
+        for j, (dte, pay) in enumerate(r['rows']):
+            for c, (e, f, kind) in enumerate(r['specs']):
+                if kind == 'payee':
+                    if pay[0] == 'fmt':
+                        lines.append('(f %d.%d.%d %d %d %d %s)' % (r['idx'], j, c, pay[3][0], pay[3][1], pay[3][2], hx(midnight(pay[2]))))
+                else:
+                    lines.append('(f %d.%d.%d %d %d %d %s)' % (r['idx'], j, c, dte[0], dte[1], dte[2], hx(midnight(f))))
+    mout = {}
+    for l in lib.run_model('C14', lines):
+        k, v = l.split(' ', 1)
+        mout[k] = None if v == '?' else unhex(v)
+    for r, (st, out, err) in zip(runs, outs):
+        got = [x.split('|') for x in out.split('\n') if x]
+        want = []
+        supported = True
+        for j, (dte, pay) in enumerate(r['rows']):
+            row = []
+            for c, (e, f, kind) in enumerate(r['specs']):
+                if kind == 'payee' and pay[0] == 'lit':
+                    row.append(pay[1])
+                else:
+                    t = mout.get('%d.%d.%d' % (r['idx'], j, c))
+                    if t is None:
+                        supported = False
+                    row.append((pay[1] if kind == 'payee' else '') + (t or ''))
+            want.append(row)
+        res.evaluations += len(r['rows'])
+        res.traces += len(r['rows'])
+        res.count('kind:multi-format-' + r['mode'], len(r['rows']))
+        res.count('multi:formats-per-run:%d' % sum(1 for s in r['specs'] if s[2] == 'date'))
+        case = dict(multi=True, journal=r['journal'], args=r['args'], mode=r['mode'],
+                    specs=[[e, f, kind] for e, f, kind in r['specs']], rows=[[list(d), list(p)] for d, p in r['rows']])
+        for j in range(len(r['rows'])):
+            res.nontrivial.add('multi|%s|%s|%d' % (' '.join(r['args'][4:]), r['journal'][:40], j))
+        if not supported:
+            res.count('model:unsupported')
+        elif st != 0 or err.strip() or got != want:
+            bad = next((j for j in range(min(len(got), len(want))) if got[j] != want[j]), None)
+            res.disagreements.append(dict(name='C14/multi-format-' + r['mode'], case=case, impl=str(got[bad] if bad is not None else (st, err[:200], len(got))),
+                                          model=str(want[bad] if bad is not None else len(want))))
+        for v in judge_multi(case, st, out, err):
+            res.violations.append(v)
+        if len(res.samples) < 6 and r['idx'] == 0:
+            res.samples.append(dict(args=r['args'], first_row=got[:1], model=want[:1]))
+
+
+def judge_multi(case, st, out, err):
+    """Oracle for a several-formats run: each printed field, read back in the format it was requested
+    in, must denote the date of its row; the rows are those the grouping option defines."""
+    got = [x.split('|') for x in out.split('\n') if x]
+    rows, specs, mode = case['rows'], case['specs'], case['mode']
+    mk = lambda key, desc, obs, req: dict(key=key, desc=desc, case=case, observed=obs, required=req)
+    if st != 0 or err.strip():
+        return [mk('format:run-failed:' + mode, 'a report with several date formats failed', err[:300], 'a report')]
+    if len(got) != len(rows) or any(len(g) != len(specs) for g in got):
+        return [mk('format:rows:' + mode, 'the report has %d rows, the input defines %d' % (len(got), len(rows)), str(got[:3]), str(len(rows)))]
+    for j, (dte, pay) in enumerate(rows):
+        for c, (e, f, kind) in enumerate(specs):
+            text = got[j][c]
+            if kind == 'payee':
+                if pay[0] == 'lit':
+                    sym = None if text == pay[1] else 'payee-changed'
+                    f, wantd = 'payee', pay[1]
+                else:
+                    f, wantd = pay[2], tuple(pay[3])
+                    sym = read_back(f, text[len(pay[1]):], wantd) if text.startswith(pay[1]) else 'not-in-requested-format'
+            else:
+                wantd = tuple(dte)
+                sym = read_back(f, text, wantd)
+            if sym:
+                return [mk('format:%s:%s' % (sym, mode), 'row %d: %s printed %r; read back in the requested format %r it must denote %s' % (j, e, text, f, wantd),
+                           '|'.join(got[j]), str(wantd))]
+    return []
+
+
+
 # ------------------------------------------------------------------------------------------ the run
 CANON_RE = re.compile(r'\d{4}/\d\d/\d\d$')
 
@@ -741,6 +982,7 @@ def run(ctx, small=False):
     groups += g_custom(ctx, rng, ctx.scale(150, 1500), 30)
     run_groups(ctx, res, groups)
     g_order(ctx, rng, res, ctx.scale(2000, 20000))
+    g_multi(ctx, rng, res, ctx.scale(120, 1200) if not small else 60)
     return res
 
 
@@ -757,6 +999,14 @@ def search(ctx, broken):
 def replay(ctx, obj):
     res = lib.Result()
     case = obj.get('case') or {}
+    if case.get('multi'):
+        path = ctx.path('replay.dat')
+        open(path, 'w', encoding='latin-1').write(case['journal'])
+        st, out, err = lib.run_ledger(['-f', path] + case['args'])
+        print('replay: ledger %s\nstdout: %s\nstderr: %s' % (' '.join(case['args']), out.decode('latin-1')[:600], err.decode('latin-1')[:300]))
+        for v in judge_multi(case, st, out.decode('latin-1'), err.decode('latin-1')):
+            res.violations.append(dict(key=v['key'], desc=v['desc']))
+        return res
     if 'journal' in case:
         path = ctx.path('replay.dat')
         open(path, 'w', encoding='latin-1').write(case['journal'])
